@@ -294,6 +294,10 @@ def cbuild(e, v):
     return e.construct(v, UNBOUND_PROPERTY)
 
 
+def obj_dict(x):
+    return dict(x)
+
+
 def rbd(x):
     from statham.schema.validation import base
     if x is True:
